@@ -2,7 +2,7 @@
 """try_seed.py <seed dir> [--tier quick|thorough] [--props C01,C02]: apply <seed dir>/patch.diff to /repo,
 run the check(s) of the property it breaks (meta.json "property") — or the given list —, write the outcome to
 <seed dir>/result.json, and ALWAYS undo the change (git checkout) afterwards."""
-import json, os, subprocess, sys, time
+import fcntl, json, os, subprocess, sys, time
 d = os.path.abspath(sys.argv[1])
 tier = "quick"
 props = None
@@ -13,6 +13,8 @@ while a:
     else: a = a[1:]
 meta = json.load(open(os.path.join(d, "meta.json")))
 props = props or [meta["property"]]
+os.makedirs("/verif/work", exist_ok=True)
+_lock = open("/verif/work/repo.lock", "w"); fcntl.flock(_lock, fcntl.LOCK_EX)   # never overlap a check run (tools/run_all.sh)
 st = subprocess.run(["git", "-C", "/repo", "status", "--porcelain"], capture_output=True, text=True).stdout.strip()
 if st:
     print("/repo is not clean:\n" + st); sys.exit(2)
